@@ -1167,7 +1167,15 @@ func (i *Interp) callBuiltin(caller *frame, callpos token.Pos, fn *ssa.Builtin, 
 				}
 			}
 		case []value:
-			panic(unsupported{"clear(slice)"})
+			if sig, ok := fn.Type().(*types.Signature); ok && sig.Params().Len() > 0 {
+				if st, ok := sig.Params().At(0).Type().Underlying().(*types.Slice); ok {
+					for k := range x {
+						i.tr.set(&x[k], zero(st.Elem()))
+					}
+					return nil
+				}
+			}
+			panic(unsupported{"clear(slice) of unknown element type"})
 		}
 		return nil
 
@@ -1302,6 +1310,10 @@ func (i *Interp) callBuiltin(caller *frame, callpos token.Pos, fn *ssa.Builtin, 
 	panic(unsupported{"builtin " + fn.Name()})
 }
 
+// minmaxType is not known to the builtin call here; signedness is inferred
+// from the concrete operand when there is one, else assumed signed (rune/int).
+func (fr *frame) minmaxType() (types.Type, bool) { return nil, false }
+
 func (i *Interp) minmax(fr *frame, isMin bool, args []value) value {
 	res := args[0]
 	for _, a := range args[1:] {
@@ -1321,11 +1333,42 @@ func (i *Interp) minmax(fr *frame, isMin bool, args []value) value {
 				continue
 			}
 		}
-		if _, ok := res.(*Term); ok {
-			panic(unsupported{"min/max on symbolic values"})
-		}
-		if _, ok := a.(*Term); ok {
-			panic(unsupported{"min/max on symbolic values"})
+		_, rs := res.(*Term)
+		_, as := a.(*Term)
+		if rs || as {
+			// symbolic integers: ite over the comparison (type from the call's signature)
+			var w uint8
+			if rs {
+				w = res.(*Term).w
+			} else {
+				w = a.(*Term).w
+			}
+			signedT := true
+			switch other := map[bool]value{true: a, false: res}[rs].(type) {
+			case uint, uint8, uint16, uint32, uint64, uintptr:
+				signedT = false
+				_ = other
+			}
+			if sig, ok := fr.minmaxType(); ok {
+				_, signedT = intInfo(sig)
+			}
+			x, y := i.toTerm(res, w), i.toTerm(a, w)
+			op := OpSLT
+			if !signedT {
+				op = OpULT
+			}
+			var c *Term
+			if isMin {
+				c = i.ts.Cmp(op, y, x)
+			} else {
+				c = i.ts.Cmp(op, x, y)
+			}
+			t := i.ts.Ite(c, y, x)
+			if t.IsConst() {
+				panic(unsupported{"min/max folded to a constant of unknown type"})
+			}
+			res = t
+			continue
 		}
 		xu, ok1 := toU64(res)
 		yu, ok2 := toU64(a)
